@@ -272,6 +272,37 @@ _PUNCT = {"{": "lbrace", "}": "rbrace", "(": "lparen", ")": "rparen", ";": "semi
           "=": "assign", ":": "colon", ".": "dot", "<identifier>": "identifier", "->": "arrow"}
 
 
+def field_words(shape):
+    """lower-case alphanumeric cores of the property names of an identifier-stress shape (its diagnostics name the
+    offending property; the class must not)"""
+    out = set()
+    def rec(t):
+        if isinstance(t, dict):
+            if t.get("k") == "struct":
+                for f in t["fields"]:
+                    core_ = re.sub(r"[^a-z0-9]", "", f["n"].lower())
+                    if len(core_) >= 2:
+                        out.add(core_)
+            for v in t.values():
+                rec(v)
+        elif isinstance(t, list):
+            for v in t:
+                rec(v)
+    rec(shape.get("schema") or shape.get("schemas"))
+    return out
+
+
+def blank_fields(msg, words):
+    if not words:
+        return msg
+    def sub(m):
+        tok = m.group(0)
+        c = re.sub(r"[^a-z0-9]", "", tok.lower())
+        c2 = re.sub(r"^(with|set|get|is|add)", "", c)
+        return "F" if (c in words or c2 in words or c.rstrip("_") in words) else tok
+    return re.sub(r"[A-Za-z_$][A-Za-z0-9_$]*", sub, msg)
+
+
 def norm_diag(msg, names=(), types=()):
     """Diagnostic text -> class. Schema-specific spellings are blanked (package names -> PKG, object names -> T,
     selector expressions and generated temporaries -> X, literals -> STR / N); the shape of the message is kept."""
